@@ -59,6 +59,7 @@ DEFAULT_PROFILE = {
     'allow_break_in_light_loop': True, 'allow_zero_cycle': True,
     'allow_raw_cycle': True, 'allow_matrix_in_routine': True,
     'max_pop': 6, 'reset_after_get': False, 'routine_in_blocks': False,
+    'matrix_stages': 4, 'default_often': False,
 }
 
 
@@ -539,9 +540,10 @@ def gen_stage(draw, env):
 
 def gen_matrix_body(draw, env):
     body = []
-    for _ in range(rint(draw, 0, 4)):
-        kind = pick(draw, 
-            ['stage', 'stage', 'stage', 'setreg', 'assign', 'loop', 'if'])
+    for _ in range(rint(draw, 0, env.prof['matrix_stages'])):
+        kind = pick(draw,
+                    ['stage', 'stage', 'stage', 'setreg', 'assign', 'loop',
+                     'if', 'default', 'lightloop'])
         if kind == 'stage':
             body += gen_stage(draw, env)
         elif kind == 'setreg':
@@ -563,6 +565,20 @@ def gen_matrix_body(draw, env):
             env.spoil(var)
             body.append(['repeat', ['range', var, ['num', str(lo)],
                                     ['num', str(hi)]], inner_body])
+        elif kind == 'default':
+            # saving the default colour talks to no bulb: legal in a block
+            body.append(['action', 'set', [['default']]])
+        elif kind == 'lightloop' and env.depth < env.prof['max_depth']:
+            light_var = pick_loop_var(draw, env, LIGHT_VARS)
+            if light_var is None:
+                continue
+            inner = enter_loop(env, 'light:all')
+            inner.active.add(light_var)
+            inner.assigned.add(light_var)
+            inner_body = gen_stage(draw, inner) + gen_setreg(draw, inner)
+            env.merge_nested(inner)
+            env.spoil(light_var)
+            body.append(['repeat', ['all', light_var, None], inner_body])
         elif kind == 'if':
             inner = env.child()
             inner_body = gen_stage(draw, inner)
@@ -583,7 +599,8 @@ def gen_action(draw, env):
         return gen_stage(draw, env)
     count = pick(draw, [1, 1, 1, 2, 3])
     operands = [gen_operand(draw, env, kind) for _ in range(count)]
-    if kind == 'set' and rint(draw, 0, 14) == 0:
+    if kind == 'set' and rint(
+            draw, 0, 4 if env.prof['default_often'] else 14) == 0:
         operands = [['default']]
     if any(op[0] == 'all' for op in operands):
         operands = [op for op in operands if op[0] == 'all'][:1]
